@@ -14,6 +14,11 @@ CHECKS = {
          "All interleavings, at the granularity of Mutex/Condvar/AtomicBool/spawn/join operations plus explicit loop-head and command-drain points, of 2-3 real resource threads and a controller thread, up to the completed deviation bound reported per scenario; deadlock = no enabled thread; livelock and step horizon reported.",
          "Sequentially consistent interleavings only (the code uses SeqCst atomics and mutexes), no spurious condvar wake-ups, ManualClock per resource, deviation-bounded (preemptions and departures from fair order at yield points each cost one).",
          "DESIGN.md §2.3, §5 C20"),
+ "C17": ("model_checking",
+         "stateless exploration of thread schedules of the real cycle thread (statement hook of DebugControl) against a controller thread running every command script of a bounded alphabet, under a controlled scheduler with iterated deviation bound; each complete schedule is judged against the undebugged reference run and the stop/resume invariants",
+         "For every script (all sequences up to length 2 quick / 3 thorough over 14 debugger commands plus curated breakpoint-wait-step scripts) all interleavings at Mutex/Condvar granularity up to the deviation bound: final state equals the undebugged run, stop notifications = stops of the cycle thread (each with a location), every resume issued at a stop unblocks the thread, the cycle always terminates once breakpoints are cleared and Continue is issued, step-over/out never stop deeper, step-in stops at a direct successor statement (globally or within its task).",
+         "Sequentially consistent interleavings, no spurious wake-ups, one fixed program shape (nested functions, FOR loop, FB, task + background program), two cycles; scripts contain no writes.",
+         "DESIGN.md §2.3, §5 C17"),
 }
 
 NOT_APPLICABLE = {
